@@ -185,8 +185,11 @@ def oracle_gfa1(case):
             items = o[2].split(' ')
             segs = [it for i, it in enumerate(items) if i % 2 == 0]
             eds = [it for i, it in enumerate(items) if i % 2 == 1]
-            if segs != f[2].split(','):
-                out.append(('converted path visits other oriented segments', f[2].split(','), segs))
+            want_segs = f[2].split(',')
+            if f[3] != '*' and len(f[3].split(',')) == len(want_segs):
+                want_segs = want_segs + want_segs[:1]          # a circular path comes back to its first segment
+            if segs != want_segs:
+                out.append(('converted path visits other oriented segments', want_segs, segs))
                 continue
             for i, ed in enumerate(eds):
                 e = Eid.get(ed[:-1])
@@ -222,7 +225,11 @@ def oracle_gfa1(case):
             elif f[0] == 'C':
                 r.append(('C',) + tuple(f[1:7]) + (tuple(tagset(f[7:], ('ID',))),))
             elif f[0] == 'P':
-                r.append(('P', f[1], f[2], tuple(tagset(f[4:]))))
+                # a circular path is written with as many overlaps as segments, or with its first segment repeated
+                segs = f[2].split(',')
+                if f[3] != '*' and len(f[3].split(',')) == len(segs):
+                    segs = segs + segs[:1]
+                r.append(('P', f[1], ','.join(segs), tuple(tagset(f[4:]))))
             elif f[0] == 'H':
                 for t in f[1:]:
                     r.append(('H', canon_tag(t)))
@@ -376,6 +383,18 @@ def gen_case(rng, i):
             final.append(l)
         if rng.random() < 0.3 and lens:
             final.append('P\tsingle\t%s+\t*' % sorted(lens)[0])
+        if rng.random() < 0.4 and len(lens) >= 2:
+            # a circular path (as many overlaps as segments) over two links added for it between an unlinked pair
+            names = sorted(lens)
+            pairs = [(a, b) for a in names for b in names if a < b and
+                     not any(l.startswith('L\t') and set([l.split('\t')[1], l.split('\t')[3]]) == set([a, b]) for l in final)]
+            if pairs:
+                a, b = rng.choice(pairs)
+                oa, ob = rng.choice('+-'), rng.choice('+-')
+                o1, o2 = rng.choice(['1M', '2M', '1M1I1M']), rng.choice(['1M', '1M1D1M', '2M'])
+                final.append('L\t%s\t%s\t%s\t%s\t%s' % (a, oa, b, ob, o1))
+                final.append('L\t%s\t%s\t%s\t%s\t%s' % (b, ob, a, oa, o2))
+                final.append('P\tcirc\t%s%s,%s%s\t%s,%s' % (a, oa, b, ob, o1, o2))
         return {'kind': 'gfa1', 'doc': final}
     kinds = ['whole', 'pfx', 'sfx', 'pfx', 'sfx', 'emptyend', 'empty0'] + (['inner'] if rng.random() < 0.3 else [])
     lines, info = gen.gen_gfa2(rng, edge_kinds=kinds, groups=rng.random() < 0.5)
